@@ -84,6 +84,40 @@ def d1_sites(F, f):
             yield sink("get_char_list_len-result", e, loc(peel(e)), "the result of get_char_list_len (a character count by the trait's contract: get_char_list_item indexes characters)")
 
 
+def d1r_sites(f):
+    """[(where, a character count reaches a bound?)] for every str slicing site of f"""
+    body = Body(f)
+    out = []
+    def is_str(t):
+        t = (t or "").lstrip("&").replace("mut ", "").strip()
+        return t == "str" or t.startswith("alloc::string::String")
+    def tainted(e):
+        exprs, seen = [e], set()
+        work = [x["lid"] for x in walk(e) if x.get("k") == "Path" and x.get("res") == "local"]
+        while work:
+            l = work.pop()
+            if l in seen:
+                continue
+            seen.add(l)
+            for d_ in body.defs.get(l, []):
+                if isinstance(d_, dict) and d_.get("k") not in ("Param", "ClosureParam", "Field"):
+                    src = d_["of"] if d_.get("k") == "Destructure" else d_
+                    exprs.append(src)
+                    work.extend(x["lid"] for x in walk(src) if x.get("k") == "Path" and x.get("res") == "local")
+        for ex in exprs:
+            for x in walk(ex):
+                if x.get("k") == "MethodCall" and x.get("m") == "count" and any(y.get("k") == "MethodCall" and y.get("m") in ("chars", "char_indices") for y in walk(x["recv"])):
+                    return True
+        return False
+    for n in walk(f["hir"]):
+        k = n.get("k")
+        if k == "MethodCall" and n.get("m") in ("get", "get_mut", "get_unchecked", "split_at", "split_at_checked", "truncate", "is_char_boundary") and is_str(n.get("recv_ty")) and n.get("args"):
+            out.append((loc(n), tainted(n["args"][0])))
+        elif k == "Index" and is_str(n.get("base_ty")):
+            out.append((loc(n), tainted(n["idx"])))
+    return out
+
+
 def rule_D1(ctx):
     F = ctx.F
     r = RuleResult("D1", "bytes-vs-chars: a UTF-8 byte length never reaches a character-count sink on the literal path; no char->u8 truncation in the literal parsers")
@@ -96,6 +130,25 @@ def rule_D1(ctx):
             if bad:
                 r.finding(f["path"], inst, where, msg)
     r.floor("character-count sinks in the data crate", sinks, 3)
+    # D1r, the reverse direction: a character count (`s.chars().count()`) is not a byte offset - it must not reach the bounds of a
+    # str slice / `get(a..b)` / split_at (bounds-checked, so nothing panics: the literal silently loses its last bytes)
+    n_off = 0
+    for f in scope:
+        if "::data::parsing::" not in f["path"] or not f.get("hir"):
+            continue
+        for where, bad in d1r_sites(f):
+            n_off += 1
+            r.examine((f["path"], "byte-offset", where), True, {"fn": f["path"], "where": where, "character_count_reaches_it": bad})
+            if bad:
+                r.finding(f["path"], "char-count-as-byte-offset#%d" % n_off, where, "a bound of the str slice at %s derives from a character count (chars().count()): for text with a multi-byte character the count is smaller than the byte offset meant, so the slice ends early - a quoted literal loses its last bytes (or is cut inside a character and rejected)" % where)
+    r.analysed["str_slice_bounds_examined"] = n_off
+    for f in F.fns_in("gfixture::d1::"):
+        if f.get("name") in ("rev_ctl_count_as_offset", "rev_ok_len_as_offset"):
+            res = d1r_sites(f)
+            if f["name"].startswith("rev_ctl_"):
+                r.control(f["name"][4:], any(b for _w, b in res))
+            else:
+                r.neg_control(f["name"][4:], bool(res) and not any(b for _w, b in res))
     # D1b: char -> u8 `as` casts in data::parsing (expected count zero: no floor, the fixture control keeps the rule honest)
     def d1b_sites(f):
         out = []
